@@ -54,6 +54,9 @@ int main(int argc, char** argv) {
     if (r % 2 == 1) mi_collect(false);
     hist[r] = census();
     printf("R %d areas %zu used %zu committed %zu\n", r, hist[r].areas, hist[r].used, hist[r].committed);
+    // every block of the round was freed (by the helper and / or the owner) and the owner collected: the heap holds no pages of them any more
+    if (r % 2 == 1 && pattern != 1 && hist[r].used == 0 && hist[r].areas > 2 + hist[0].areas / 8)
+      { FAIL("collect_keeps_empty_pages", "pattern %d block size %zu round %d: all %zu blocks were freed and the owner called mi_collect(false), yet the heap still holds %zu areas without a live block", pattern, BS, r, total, hist[r].areas); break; }
     if (r == 0 && pattern == 1 && (hist[0].areas == 0 || total / hist[0].areas < 8)) { printf("SKIP pattern 1 needs several blocks per page\n"); break; }
     for (size_t i = 0; i < nkeep && nkeep_prev < 4096; i++) keep_prev[nkeep_prev++] = keep[i];
     // growth criterion: three increases in a row that together exceed 3/4 of the pages one round needs (the blocks kept by pattern 1
